@@ -12,6 +12,7 @@ def is01(t):
 class BoolInit(Contract):
     """LinCombBool(lc, constrain=True): declares lc boolean; 1 constraint lc*(1-lc)=0."""
     name = "pysnark.boolean:LinCombBool.__init__"
+    sprops = ("C02", "C03")
     type_errors = (RuntimeError,)
 
     def configs(self, tier):
@@ -61,6 +62,7 @@ class BoolInit(Contract):
 
 class _ValBool(Contract):
     alloc = None
+    sprops = ("C02", "C03")
     witness_args = (0,)
 
     def configs(self, tier):
